@@ -40,6 +40,7 @@ def compare_features(rep, model, rule_prefix=''):
 
 
 def check(rep, model, tier):
+    _doc_defaults(rep, model)
     rep.rule('AMP-FRACTION', 'amp_fraction == average rank of volt_amp / number of rows (Series.rank defaults: average, ascending, not pct)')
     rep.rule('AMP-CONSIST', 'amp_consistency, per centring and direction: NaN at both ends; for interior k the nanmin over the documented '
                             'adjacent rise/decay min/max ratios (centring-dependent neighbours), negatives clamped to 0')
@@ -82,3 +83,8 @@ def check(rep, model, tier):
                 rep.compare('WIRING', f'{centre}:{col}', site, cols[col], want[col], ctx.unmodelled)
                 n += 1
     rep.floor('burst feature definitions compared', n, 16 + 8)
+
+
+def _doc_defaults(rep, model):
+    from . import common as _c
+    _c.doc_defaults(rep, model, ['compute_burst_features', 'compute_amp_consistency', 'compute_period_consistency'])
